@@ -397,6 +397,7 @@ impl FatVolume {
         dir_cluster: ClusterId,
         name: ShortFileName,
         attributes: Attributes,
+        first_cluster: ClusterId,
     ) -> Result<DirEntry, Error<D::Error>>
     where
         D: BlockDevice,
@@ -439,7 +440,7 @@ impl FatVolume {
                                 let entry = DirEntry::new(
                                     name,
                                     attributes,
-                                    ClusterId::EMPTY,
+                                    first_cluster,
                                     ctime,
                                     block_idx,
                                     (i * OnDiskDirEntry::LEN) as u32,
@@ -502,7 +503,7 @@ impl FatVolume {
                                 let entry = DirEntry::new(
                                     name,
                                     attributes,
-                                    ClusterId(0),
+                                    first_cluster,
                                     ctime,
                                     block_idx,
                                     (i * OnDiskDirEntry::LEN) as u32,
@@ -1275,15 +1276,51 @@ impl FatVolume {
         D: BlockDevice,
         T: TimeSource,
     {
-        let mut new_dir_entry_in_parent =
-            self.write_new_directory_entry(block_cache, time_source, parent, sfn, att)?;
-        if new_dir_entry_in_parent.cluster == ClusterId::EMPTY {
-            new_dir_entry_in_parent.cluster = self.alloc_cluster(block_cache, None, false)?;
-            // update the parent dir with the cluster of the new dir
-            self.write_entry_to_disk(block_cache, &new_dir_entry_in_parent)?;
+        // Allocate and initialise the new directory's cluster before the parent
+        // refers to it: the parent must never hold an entry that points at
+        // nothing (cluster 0 would alias the root directory) or at stale data,
+        // neither after an error nor after a power cut.
+        let new_cluster = self.alloc_cluster(block_cache, None, false)?;
+        let result = self
+            .init_new_dir(block_cache, time_source, parent, new_cluster, att)
+            .and_then(|_| {
+                self.write_new_directory_entry(
+                    block_cache,
+                    time_source,
+                    parent,
+                    sfn,
+                    att,
+                    new_cluster,
+                )
+            });
+        match result {
+            Ok(_entry) => {
+                debug!("Made new dir entry {:?}", _entry);
+                Ok(())
+            }
+            Err(e) => {
+                // give the cluster back; the original error is the one to report
+                let _ = self.free_cluster_chain(block_cache, new_cluster);
+                Err(e)
+            }
         }
-        let new_dir_start_block = self.cluster_to_block(new_dir_entry_in_parent.cluster);
-        debug!("Made new dir entry {:?}", new_dir_entry_in_parent);
+    }
+
+    /// Writes the `.` and `..` entries into the first block of a freshly
+    /// allocated directory cluster and blanks the rest of the cluster.
+    fn init_new_dir<D, T>(
+        &mut self,
+        block_cache: &mut BlockCache<D>,
+        time_source: &T,
+        parent: ClusterId,
+        new_cluster: ClusterId,
+        att: Attributes,
+    ) -> Result<(), Error<D::Error>>
+    where
+        D: BlockDevice,
+        T: TimeSource,
+    {
+        let new_dir_start_block = self.cluster_to_block(new_cluster);
         let now = time_source.get_timestamp();
         let fat_type = self.get_fat_type();
         // A blank block
@@ -1295,7 +1332,7 @@ impl FatVolume {
             ctime: now,
             attributes: att,
             // point at ourselves
-            cluster: new_dir_entry_in_parent.cluster,
+            cluster: new_cluster,
             size: 0,
             entry_block: new_dir_start_block,
             entry_offset: 0,
@@ -1336,6 +1373,32 @@ impl FatVolume {
             block_cache.write_back()?;
         }
 
+        Ok(())
+    }
+
+    /// Releases a whole cluster chain, including its first cluster.
+    pub(crate) fn free_cluster_chain<D>(
+        &mut self,
+        block_cache: &mut BlockCache<D>,
+        cluster: ClusterId,
+    ) -> Result<(), Error<D::Error>>
+    where
+        D: BlockDevice,
+    {
+        if cluster.0 < RESERVED_ENTRIES || cluster.0 >= self.cluster_count + RESERVED_ENTRIES {
+            // nothing allocated (or not a real cluster): nothing to release
+            return Ok(());
+        }
+        // frees everything after the first cluster
+        self.truncate_cluster_chain(block_cache, cluster)?;
+        self.update_fat(block_cache, cluster, ClusterId::EMPTY)?;
+        match self.next_free_cluster {
+            Some(next_free_cluster) if next_free_cluster.0 <= cluster.0 => {}
+            _ => self.next_free_cluster = Some(cluster),
+        }
+        if let Some(ref mut number_free_cluster) = self.free_clusters_count {
+            *number_free_cluster = number_free_cluster.saturating_add(1);
+        }
         Ok(())
     }
 }
